@@ -3,31 +3,31 @@ empty is not claimed."""
 
 PROPS = {
     "C01": dict(
-        rules=["R-CALC", "R-SLOT", "R-ORDER", "R-REACH", "R-PROV", "R-ENTRY", "R-LISTAPI", "R-ID", "R-SNAP", "R-CHAIN", "R-SUMMARY", "R-WRITE", "R-NOOP", "R-OBJID"],
+        rules=["R-CALC", "R-SLOT", "R-ORDER", "R-REACH", "R-PROV", "R-ENTRY", "R-LISTAPI", "R-ID", "R-SNAP", "R-CHAIN", "R-SUMMARY", "R-WRITE", "R-NOOP", "R-OBJID", "R-CACHE:model", "R-EDGE"],
         decided="necessary conditions for incremental = from-scratch: rule/slot tables, def-before-use in the schedule, class-level reachability for link edits, value-level provenance completeness (per branch) for numeric edits, ordering guards of the three chain builders, single entry point for edits, no inherited list mutator, no-op skip only on equality, injective ids (values and objects), operator summaries valid on every path, snapshot order of the before/after totals",
         not_decided="the numeric equality edited-vs-rebuilt; instance-level reachability through pre-change links"),
     "C02": dict(
-        rules=["R-AGG", "R-DEG", "R-ACCUM", "R-LEAK"],
-        decided="structure of the aggregation: the four category dicts agree on keys, collections, attributes and deduplication; every footprint-bearing class is covered; footprint = energy x intensity (degree rows); accumulator discipline and no loop variable read after its loop in model code",
+        rules=["R-AGG", "R-DEG", "R-ACCUM", "R-LEAK", "R-CHAIN:system"],
+        decided="structure of the aggregation: the four category dicts agree on keys, collections, attributes and deduplication; every footprint-bearing class is covered; footprint = energy x intensity (degree rows); accumulator discipline and no loop variable read after its loop in model code; the system (whose stored total is the only aggregate that is not recomputed on the fly) is appended to every recomputation chain, looked up on every object of the chain",
         not_decided="finiteness and sign of the values"),
     "C03": dict(
-        rules=["R-SHIFT", "R-FILL", "R-PERUP", "R-DEG", "R-DELAY", "R-ACCUM"],
-        decided="index shift (freq=) not positional shift, zero-fill on series addition/multiplication, per-pattern writer/reader collection agreement, linearity of load quantities in the traffic series, delay increased after a step's jobs are placed, accumulators only added to (never overwritten, compounded or scaled inside the loop)",
+        rules=["R-SHIFT", "R-FILL", "R-PERUP", "R-DEG", "R-DELAY", "R-ACCUM", "R-ZEROCUT"],
+        decided="index shift (freq=) not positional shift, zero-fill on series addition/multiplication, per-pattern writer/reader collection agreement, linearity of load quantities in the traffic series, delay increased after a step's jobs are placed and steps enumerated from the uj_steps list itself (order and multiplicity), accumulators only added to (never overwritten, compounded or scaled inside the loop), empty-value shortcuts taken only on emptiness / == 0 tests (never on an ordering test that would swallow negative data_stored)",
         not_decided="the conservation identities themselves (floor/ceil hour arithmetic, totals)"),
     "C04": dict(
         rules=["R-RAW2", "R-BOUND", "R-CUMUL"],
         decided="two-series raw array operations are aligned and unit-fixed (no positional arithmetic between two series); order-domain bounds nb >= raw, active <= nb; a fixed instance count is compared with the peak need before use; cumulative storage = running sum with the base need added first, checked before it is installed",
         not_decided="every >= inequality numerically; float cancellation in the storage negativity check"),
     "C05": dict(
-        rules=["R-TXN:sim", "R-MIRROR", "R-ZIP", "R-WRITE", "R-REPLACE-SYM", "R-EDGE", "R-ATTACH"],
+        rules=["R-TXN:sim", "R-MIRROR", "R-ZIP", "R-WRITE", "R-REPLACE-SYM", "R-EDGE", "R-ATTACH", "R-CACHE:update"],
         decided="exceptional exits of a simulation restore what was replaced; set/reset are mirror images; baseline/simulated lists are built in lockstep; the replace primitive has a symmetric precondition and detaches before it attaches; child registration is unconditional; rules write only their own attribute",
         not_decided="identity of every object after arbitrary toggle sequences"),
     "C06": dict(
-        rules=["R-ZIP", "R-TXN:date", "R-SIMDATE", "R-LOCAL", "R-TZREPLACE"],
+        rules=["R-ZIP", "R-TXN:date", "R-SIMDATE", "R-LOCAL", "R-TZREPLACE", "R-CACHE:update"],
         decided="twin pairing lists are built in lockstep and every pair is linked; rejections (naive date, outside period) precede any mutation; the filter keeps hours >= the date; naive local-time indexes are localised with the pattern's zone; no aware date is re-labelled with .replace(tzinfo=)",
         not_decided="equality with the really-updated model; 'no hour before the date'"),
     "C07": dict(
-        rules=["R-OPREC", "R-OPPAR", "R-INPLACE", "R-LABEL", "R-SUMMARY", "R-PAREN", "R-VALUESTORE", "R-WRITE", "R-PARENT-USED"],
+        rules=["R-OPREC", "R-OPPAR", "R-INPLACE", "R-LABEL", "R-SUMMARY", "R-PAREN", "R-VALUESTORE", "R-WRITE", "R-PARENT-USED", "R-CACHE:explainable"],
         decided="recorded operator and operand order = computed ones; parents recorded on every return path; each recorded parent is used by the value; no unrecorded in-place numeric change and no store into .value from outside; every assigned result labelled; explain() parenthesises wherever precedence requires it",
         not_decided="numeric re-evaluation of each node"),
     "C08": dict(
@@ -35,7 +35,7 @@ PROPS = {
         decided="completeness (every dependency is a transitive recorded ancestor, per branch), both-ends bookkeeping has single writers, paired unconditional loops and detach-before-attach, dedup ids injective, attribute graph acyclic at class level, ordering guards of attr_updates_chain and of the de-duplications (keep last)",
         not_decided="correctness of attr_updates_chain on arbitrary graphs"),
     "C09": dict(
-        rules=["R-COMM", "R-FILL", "R-PURE", "R-RAW2", "R-OPREC", "R-UNITS", "R-DERIVED"],
+        rules=["R-COMM", "R-FILL", "R-PURE", "R-RAW2", "R-OPREC", "R-UNITS", "R-DERIVED", "R-CACHE:explainable", "R-SHIFT"],
         decided="operand-kind dispatch symmetry of + and *, empty neutral/absorbing, zero-fill, operators do not mutate operands, no positional arithmetic between two series, custom resource units keep their own dimension, derived accessors (unit) are never cached",
         not_decided="the algebraic laws over values (pint/pandas, trusted)"),
     "C10": dict(
@@ -43,7 +43,7 @@ PROPS = {
         decided="every bare-number extraction from a unit-carrying value happens in a statically fixed unit or a scale-invariant context; ceil/round call sites have a fixed unit; to() converts on every path; unit accessors are not cached",
         not_decided="nothing beyond pint's own correctness"),
     "C11": dict(
-        rules=["R-LOCAL", "R-TZREPLACE", "R-VALUESTORE"],
+        rules=["R-LOCAL", "R-TZREPLACE", "R-VALUESTORE", "R-CACHE:explainable"],
         decided="only the UTC converter (and the simulation filter, which localises explicitly) reads the local-time series; the converter localises with the pattern's zone, keeps skipped hours, sums duplicated ones, and every return path goes through the per-timestamp conversion; nothing rewrites the converted series afterwards",
         not_decided="totals, DST merging, offsets (pandas/pytz runtime semantics)"),
     "C12": dict(
@@ -51,7 +51,7 @@ PROPS = {
         decided="homogeneity degree of each footprint formula in each documented driver, independence rows, no loop variable read after its loop, and provenance completeness so that a live edit of a driver reaches the footprints",
         not_decided="floating-point exactness of k*x"),
     "C13": dict(
-        rules=["R-JSON-KEYS", "R-JSON-KINDS", "R-JSON-UPG", "R-JSON-CLS", "R-JSON-ID", "R-JSON-LOAD", "R-JSON-SIB"],
+        rules=["R-JSON-KEYS", "R-JSON-KINDS", "R-JSON-UPG", "R-JSON-CLS", "R-JSON-ID", "R-JSON-LOAD", "R-JSON-SIB", "R-CACHE:json"],
         decided="writer/reader key and kind agreement, to_json dispatch covers every attribute kind, sibling to_json signatures agree, scalar values written without rounding and hourly ones with 3 decimals, loader converts unconditionally and after the version upgrade, ids preserved, upgrade-handler table total, class table covers reachable classes",
         not_decided="numeric equality after reload, byte-equality of re-export, liveness of the loaded system"),
     "C14": dict(
@@ -59,7 +59,7 @@ PROPS = {
         decided="validation precedes mutation or is rolled back; validator dispatch covers every annotation form; the three allowed-values refusals raise; both entry paths call both validators; defaults table covers quantity parameters; __setattr__ overrides delegate",
         not_decided="nothing stated as undecided; the checks are structural"),
     "C15": dict(
-        rules=["R-TXN:recompute", "R-EDGE", "R-RULE-TXN"],
+        rules=["R-TXN:recompute", "R-EDGE", "R-RULE-TXN", "R-CACHE:update"],
         decided="an exception leaving the recompute loop restores every value already replaced (the handler sees partial progress); a raising rule raises before it assigns; re-attachment registers children unconditionally",
         not_decided="behaviour of arbitrary later histories"),
     "C16": dict(
@@ -67,7 +67,7 @@ PROPS = {
         decided="list-API exhaustiveness, attach/detach pairing per mutator, shadow-copy/real-op agreement, receiver typestate after a mutator, reverse look-ups derived not stored, single append-only writers of link bookkeeping, no-op skip only on equality, unique object ids, delete guard and one-system check ordering and reachability from the edit path",
         not_decided="list-content equivalence with Python lists for every operation sequence"),
     "C17": dict(
-        rules=["R-CALC", "R-PROV", "R-ORDER", "R-PLACEHOLDER", "R-SIB-JOB", "R-SERV", "R-DEG", "R-REACH", "R-PARENT-USED"],
+        rules=["R-CALC", "R-PROV", "R-ORDER", "R-PLACEHOLDER", "R-SIB-JOB", "R-SERV", "R-DEG", "R-REACH", "R-PARENT-USED", "R-CACHE:model"],
         decided="builder rule tables, provenance (per branch) and schedule; constant placeholders are calculated; each recorded parent of a looked-up value is used by the lookup; Job/ServiceJob agree; server accounts for services; the two stated builder formulas have the stated shape",
         not_decided="numeric equality builder-model vs plain-model"),
     "C18": dict(
@@ -79,7 +79,7 @@ PROPS = {
         decided="positional selection from hash-ordered collections only at proven-singleton sites; identity never flows into values; object ids unique per object; no loop variable read after its loop and no order-dependent accumulation (scaling inside a loop) over set-ordered collections",
         not_decided="last-ulp effects of summation order over set-ordered collections (listed, not alarmed)"),
     "C20": dict(
-        rules=["R-THREAD"],
+        rules=["R-THREAD", "R-CACHE:time"],
         decided="every builder threads start_date, pint_unit and its value parameters into the frame it returns; every date_range starts at start_date and is hourly; what decides an hour is read from its timestamp, not its position",
         not_decided="calendar logic, lengths, leap years (pandas date_range semantics)"),
 }
